@@ -282,7 +282,25 @@ HoldsValue(V, reg, j) ==
   /\ \A x \in reg.vals : reg.win = x.id /\ ImgVal(V, x) = NormVal(j)
 OutsideUnchanged(B, A, roots) == \A id \in DOMAIN B \ Desc(B, roots) : id \in DOMAIN A /\ A[id] = B[id]
 
-IsBulk(c) == c.fn \in {"update_text", "update_object", "batch_create", "splice_values", "init_root"}
+IsBulk(c) == c.fn \in {"update_text", "update_object", "batch_create", "splice_values", "init_root", "update_spans"}
+
+(* update_spans: the spans read back equal the given spans once adjacent text spans with equal marks are merged
+   (and empty text spans dropped); a block is compared by the value of its map *)
+SpanItem(s) == IF s.t = "block" THEN [t |-> "block", v |-> NormVal(s.value)]
+               ELSE [t |-> "text", toks |-> s.toks, marks |-> {<<s.marks[i].name, s.marks[i].v>> : i \in DOMAIN s.marks}]
+RECURSIVE MergeSpansR(_, _, _)
+MergeSpansR(sp, i, acc) ==
+  IF i > Len(sp) THEN acc
+  ELSE LET s == SpanItem(sp[i])
+           n == Len(acc)
+       IN  IF s.t = "text" /\ Len(s.toks) = 0 THEN MergeSpansR(sp, i + 1, acc)
+           ELSE IF s.t = "text" /\ n > 0 /\ acc[n].t = "text" /\ acc[n].marks = s.marks
+                THEN MergeSpansR(sp, i + 1, [acc EXCEPT ![n] = [t |-> "text", toks |-> acc[n].toks \o s.toks, marks |-> s.marks]])
+                ELSE MergeSpansR(sp, i + 1, Append(acc, s))
+MergeSpans(sp) == MergeSpansR(sp, 1, <<>>)
+RECURSIVE SpansText(_, _)
+SpansText(sp, i) == IF i > Len(sp) THEN <<>>
+                    ELSE (IF sp[i].t = "block" THEN <<"objrepl">> ELSE sp[i].toks) \o SpansText(sp, i + 1)
 BulkOK(B, A, c) ==
   LET T == c.obj
       ty == B[T].ty
@@ -290,7 +308,13 @@ BulkOK(B, A, c) ==
   CASE c.fn = "update_text" ->
          IF ty = "text"
          THEN /\ Ok(c) /\ T \in DOMAIN A /\ A[T].text = c.toks
-              /\ \A id \in DOMAIN B \ {T} : id \in DOMAIN A /\ A[id] = B[id]
+              /\ OutsideUnchanged(B, A, {T})      \* (block markers inside the text are its descendants)
+         ELSE IsErr(c) /\ A = B
+    [] c.fn = "update_spans" ->
+         IF ty = "text"
+         THEN /\ Ok(c) /\ "got" \in DOMAIN c /\ MergeSpans(c.got) = MergeSpans(c.spans)
+              /\ T \in DOMAIN A /\ A[T].text = SpansText(c.spans, 1)
+              /\ OutsideUnchanged(B, A, {T})
          ELSE IsErr(c) /\ A = B
     [] c.fn = "update_object" ->
          IF ty \in KindOf(c.value)
